@@ -591,6 +591,44 @@ func (vc *VC) dryBody(fr *Frame, st *State, li *LoopInfo, header *ssa.BasicBlock
 
 func (vc *VC) havocCell(st *State, c *Cell) {
 	old := st.mem[c]
+	if vc.modularWritten[c] && vc.keepRefsOnHavoc == 0 {
+		// written through a contract-summarised call: scalar contents may change, references stay
+		vc.keepRefsOnHavoc++
+		defer func() { vc.keepRefsOnHavoc-- }()
+		st.mem[c] = vc.havocVal(old, vc.cellType[c], c.Name, st)
+		return
+	}
+	// struct cells: havoc only the field paths that were written (when known)
+	if sv, ok := old.(StructVal); ok && vc.writePaths != nil {
+		if paths, ok := vc.writePaths[c]; ok {
+			if _, whole := paths[""]; !whole && len(paths) > 0 {
+				cur := Val(sv)
+				var keys []string
+				for k := range paths {
+					keys = append(keys, k)
+				}
+				sortStrings(keys)
+				for _, k := range keys {
+					path := paths[k]
+					sub := vc.getPath(cur, path)
+					T := vc.cellType[c]
+					for _, pe := range path {
+						if T == nil {
+							break
+						}
+						if st2, ok := T.Underlying().(*types.Struct); ok {
+							T = st2.Field(pe.Field).Type()
+						} else {
+							T = nil
+						}
+					}
+					cur = vc.setPath(cur, path, vc.havocVal(sub, T, c.Name+k, st))
+				}
+				st.mem[c] = cur
+				return
+			}
+		}
+	}
 	st.mem[c] = vc.havocVal(old, vc.cellType[c], c.Name, st)
 }
 
@@ -643,16 +681,41 @@ func (vc *VC) havocVal(v Val, T types.Type, name string, st *State) Val {
 		l.Signed = true
 		st.Fact(vc.iLe(vc.likeIdx(l, 0), l, true))
 		return BuilderObj{Len: l}
+	case BufferObj:
+		is := vc.intSort(64)
+		l := vc.freshTerm(name+".len", is)
+		l.Signed = true
+		st.Fact(vc.iLe(vc.idx(0), l, true))
+		ft := vc.freshTerm(name+".neverwritten", SBool)
+		st.Fact(Implies(ft, Eq(l, vc.idx(0))))
+		return BufferObj{Content: vc.freshTerm(name+".content", x.Content.S), Base: vc.idx(0), Len: l, FreshT: &ft}
 	case OnceObj:
 		// a Once only ever moves from not-done to done
 		d := vc.freshTerm(name+".done", SBool)
 		st.Fact(Implies(x.Done, d))
 		return OnceObj{Done: d}
+	case SliceArr:
+		return SliceArr{IsNil: vc.freshTerm(name+".isnil", x.IsNil.S), Len: vc.freshTerm(name+".len", x.Len.S), Data: vc.freshTerm(name+".data", x.Data.S)}
 	case SliceVal:
 		if T != nil {
 			if sT, ok := T.Underlying().(*types.Slice); ok {
 				if _, ok := vc.sortOf(sT.Elem()); ok {
 					return vc.fresh(T, name, st)
+				}
+				if inner, ok := sT.Elem().Underlying().(*types.Slice); ok {
+					if _, ok := vc.sortOf(inner.Elem()); ok {
+						// [][]byte: fresh backing store of slots
+						c := vc.newCell(name+".slots", "heap", nil)
+						sa := vc.zeroSliceArray(sT.Elem()).(SliceArr)
+						st.mem[c] = vc.havocVal(sa, nil, name+".slots", st)
+						ln := vc.freshTerm(name+".len", vc.intSort(64))
+						ln.Signed = true
+						isnil := vc.freshTerm(name+".isnil", SBool)
+						st.Fact(vc.iLe(vc.idx(0), ln, true))
+						st.Fact(vc.iLe(ln, vc.idxBig(maxLenBound), true))
+						st.Fact(Implies(isnil, Eq(ln, vc.idx(0))))
+						return SliceVal{Base: PtrVal{Cell: c}, Off: vc.idx(0), Len: ln, Cap: ln, IsNil: isnil}
+					}
 				}
 			}
 		}
@@ -667,6 +730,9 @@ func (vc *VC) havocVal(v Val, T types.Type, name string, st *State) Val {
 		n.Count = vc.freshTerm(name+".count", x.Count.S)
 		return n
 	case PtrVal, FuncVal, IfaceVal, MapVal, SymIface:
+		if vc.keepRefsOnHavoc > 0 {
+			return v // frame assumption of modular calls: reference-valued fields are not reassigned
+		}
 		panic(execError{fmt.Sprintf("havoc of %T-valued location %s is outside the supported subset", v, name)})
 	}
 	panic(execError{fmt.Sprintf("havoc: unsupported %T (%s)", v, name)})
@@ -1182,6 +1248,19 @@ func (vc *VC) convert(v Val, from, to types.Type, st *State) Val {
 		if sl, ok := tu.(*types.Slice); ok {
 			es, _ := vc.sortOf(sl.Elem())
 			t := v.(Term)
+			for lit, lt := range vc.strLits {
+				if lt.E == t.E && !vc.mode.IntMath {
+					// bytes of a string literal: concrete content and length
+					arr := ConstArray(ArrSort(vc.intSort(64), es), BVConstI(0, 8, false))
+					for k := 0; k < len(lit); k++ {
+						arr = Store(arr, vc.idx(int64(k)), BVConstI(int64(lit[k]), 8, false))
+					}
+					c := vc.newCell("literal", "heap", nil)
+					st.mem[c] = arr
+					n := vc.idx(int64(len(lit)))
+					return SliceVal{Base: PtrVal{Cell: c}, Off: vc.idx(0), Len: n, Cap: n, IsNil: TFalse()}
+				}
+			}
 			c := vc.newCell("bytesof", "heap", nil)
 			st.mem[c] = vc.ufApp("bytes_of_string", ArrSort(vc.intSort(64), es), t)
 			ln := vc.ufApp("len_of_string", vc.intSort(64), t)
